@@ -361,4 +361,10 @@ def handleSelect (env : SelEnv) (s : State) (pid : Nat) : State × Out :=
           | none => { st with startTime := some env.now }
         processSources env pid snap receiveResult startTime s 0 snap.sources
 
+/-- one iteration of the instruction loop of `step` on a `Select` instruction (handler + `Err` arm) -/
+def stepSelect (env : SelEnv) (s : State) (pid : Nat) : State × Out :=
+  match handleSelect env s pid with
+  | (s, .fail) => (setError s pid, .fail)
+  | r => r
+
 end QM.Heap
